@@ -8,6 +8,8 @@ namespace Ampy
 /-- Errors the implementation raises itself (`AmpycloudError`). -/
 inductive AmpyErr where
   | ampy (why : String)
+  /-- any other Python exception class (a crash, in the sense of C08) -/
+  | other (cls : String)
   deriving Repr, DecidableEq
 
 /-- `numpy.round` on a rational: round half to even. -/
